@@ -12,11 +12,13 @@ namespace SA.TrustSource
 open SA.TlsConfig
 
 /-- the shape the theorems rest on: in cert.go every ReadFile reachable from the three getters hands its error to
-    a `return`, no fallible result is thrown away, and AppendCertsFromPEM's verdict guards a return -/
+    a `return`, no fallible result is thrown away, and AppendCertsFromPEM's verdict guards a return of an error that
+    reaches addCaCertificates' caller (SA.Gen.c05CaPemVerdictChecked: established for the call wherever it sits -
+    in addCaCertificates or in a function of cert.go it calls - not by the name of a variable) -/
 theorem C05_read_errors_propagate :
     genReadFacts = ⟨true, true, true⟩ ∧ SA.Gen.c05BlankResults = [] ∧
     SA.Gen.c05FailurePoints.all (fun p => p.1 == "findFile" || p.2.2 != "dropped") = true ∧
-    SA.Gen.c05FailurePoints.contains ("Config.addCaCertificates", "caCertPool.AppendCertsFromPEM", "guard:!ok") = true := by
+    SA.Gen.c05CaPemVerdictChecked = true := by
   decide
 
 theorem readSrc_unreadable {s : Src} (e : ErrClass) (h : s.file = some none) : readSrc s e = .err e := by
